@@ -22,6 +22,7 @@ func init() {
 			"R2": "every time.NewTicker / time.After period inside the follower loop functions folds to <= 500 ms and one exists; the periodic check function reaches an acquisition round from the Get-error edge and from the empty-value edge, and is called under claim == false",
 			"R3": "every Return of the follower loop's root function is guarded by ctx.Err() != nil or is the ctx.Done() case of a select",
 			"R4": "see C17-R1",
+			"R5": "every `return nil` of the acquisition function (and of the functions whose result it passes on) is guarded by the claim-set unit having returned true; in Start, the err != nil edge of the first acquisition reaches the follower transition",
 		},
 	})
 }
@@ -84,6 +85,52 @@ func checkC06(c *Ctx) {
 		}
 	}
 	c.check(len(foreign) == 0, "R1", "follower loop started unconditionally in "+shortFn(unit), goSite, "conditions other than run-liveness / already-running at the go statement: %v", foreign)
+	// the "already running" flag that suppresses a second loop must be cleared whenever the
+	// goroutine ends, otherwise a later transition finds it set and starts no loop at all
+	var flag string
+	for _, l := range gs {
+		if l.S.Op == "call" && l.S.Name == "(*sync/atomic.Bool).Load" && !l.Truth && len(l.S.Args) == 1 && !m.isClaimLoadSym(l.S) {
+			flag = l.S.Args[0].String()
+		}
+	}
+	if flag != "" {
+		for _, t := range m.funcValueTargets(goSite.Call.Value) {
+			cleared := false
+			if len(t.Blocks) > 0 {
+				for _, in := range t.Blocks[0].Instrs {
+					if d, ok := in.(*ssa.Defer); ok {
+						if f := d.Call.StaticCallee(); f != nil && f.String() == "(*sync/atomic.Bool).Store" && len(d.Call.Args) == 2 && m.Sym.Of(d.Call.Args[0]).String() == flag {
+							if k, isC := constBool(d.Call.Args[1]); isC && !k {
+								cleared = true
+							}
+						}
+					}
+					if _, isCall := in.(*ssa.Call); isCall {
+						break
+					}
+				}
+			}
+			if !cleared {
+				// or: every path to the exit stores false
+				if first := firstInstr(t); first != nil {
+					okF, _ := mustFollow(first, func(x ssa.Instruction) bool {
+						call, ok := x.(*ssa.Call)
+						if !ok {
+							return false
+						}
+						f := call.Call.StaticCallee()
+						if f == nil || f.String() != "(*sync/atomic.Bool).Store" || m.Sym.Of(call.Call.Args[0]).String() != flag {
+							return false
+						}
+						k, isC := constBool(call.Call.Args[1])
+						return isC && !k
+					}, nil)
+					cleared = okF
+				}
+			}
+			c.check(cleared, "R1", "already-running flag cleared when the follower goroutine ends in "+shortFn(t), goSite, "flag %s is reset on every exit of the goroutine (deferred, unconditional): %v", strings.TrimPrefix(flag, "&"), cleared)
+		}
+	}
 	// every demote unit has one
 	for _, u := range m.DemoteUnits {
 		has := false
@@ -102,7 +149,7 @@ func checkC06(c *Ctx) {
 	// ---- R2 -----------------------------------------------------------------------
 	loopFns := m.staticReach(root, false)
 	nPeriod := 0
-	for f := range loopFns {
+	for _, f := range sortedFns(loopFns) {
 		if !m.reachesStoreOp(f) && f != root {
 			continue
 		}
@@ -128,7 +175,7 @@ func checkC06(c *Ctx) {
 	}
 	// the periodic check function: called from the loop functions under claim==false, contains Get
 	nChk := 0
-	for f := range loopFns {
+	for _, f := range sortedFns(loopFns) {
 		eachInstr(f, func(in ssa.Instruction) {
 			call, ok := in.(*ssa.Call)
 			if !ok {
@@ -200,7 +247,7 @@ func checkC06(c *Ctx) {
 
 	// ---- R3 -----------------------------------------------------------------------
 	nRet := 0
-	for _, b := range root.Blocks {
+	for _, b := range liveBlocks(root) {
 		ret, ok := b.Instrs[len(b.Instrs)-1].(*ssa.Return)
 		if !ok || b == root.Recover {
 			continue
@@ -232,13 +279,87 @@ func checkC06(c *Ctx) {
 		c.ok("R3", "follower loop of "+shortFn(root)+" has no return", firstInstr(root), "it never exits")
 	}
 
+	// ---- R5: a failed acquisition is reported, and a failed initial acquisition starts the loop
+	if acq := m.acquisitionFn(); acq != nil {
+		var check func(f *ssa.Function, depth int)
+		seenF := map[*ssa.Function]bool{}
+		check = func(f *ssa.Function, depth int) {
+			if seenF[f] || depth > 3 {
+				return
+			}
+			seenF[f] = true
+			for _, b := range liveBlocks(f) {
+				ret, ok := b.Instrs[len(b.Instrs)-1].(*ssa.Return)
+				if !ok || b == f.Recover || len(ret.Results) != 1 || !isErrorType(ret.Results[0].Type()) {
+					continue
+				}
+				v := returnValue(ret, 0)
+				key := fmt.Sprintf("acquisition result #%d of %s", exitOrdinal(f, b), shortFn(f))
+				if k, isC := v.(*ssa.Const); isC && k.Value == nil {
+					// success must mean: the claim-set unit accepted the claim
+					g := m.Guards(b)
+					claimed := hasLit(g, true, func(s *Sym) bool {
+						call, ok := s.V.(*ssa.Call)
+						return ok && call.Call.StaticCallee() != nil && containsFn(m.ClaimSet, call.Call.StaticCallee())
+					})
+					c.check(claimed, "R5", key, ret, "`return nil` only after the claim-set unit returned true: %v (a nil result without a claim makes the caller believe it leads or, at start-up, never starts the follower loop)", claimed)
+					continue
+				}
+				// a result passed through from a callee: check the callee
+				if call, ok := v.(*ssa.Call); ok {
+					if g := call.Call.StaticCallee(); g != nil && m.isLib(g) {
+						check(g, depth+1)
+					}
+				}
+			}
+		}
+		check(acq, 0)
+		// the start unit's goroutine: on error, the follower transition
+		if st := m.method("Start"); st != nil {
+			found := false
+			for _, cl := range withClosures(st) {
+				eachInstr(cl, func(in ssa.Instruction) {
+					ifi, ok := in.(*ssa.If)
+					if !ok {
+						return
+					}
+					l := m.litOf(ifi.Cond, true, ifi)
+					if l.S.Op == "bin" && l.S.Name == "==" && symMentions(l.S, "nil") && symMentions(l.S, funcName(acq)+"(") {
+						errEdge := map[bool]int{true: 1, false: 0}[l.Truth]
+						ok2 := reachAvoid(in.Block(), errEdge, func(x ssa.Instruction) bool {
+							call, ok := x.(*ssa.Call)
+							if !ok {
+								return false
+							}
+							g := call.Call.StaticCallee()
+							if g == nil || !m.isLib(g) {
+								return false
+							}
+							for _, h := range sortedFns(m.staticReach(g, false)) {
+								if containsFn(m.DemoteUnits, h) {
+									return true
+								}
+							}
+							return false
+						}, nil) != nil
+						found = true
+						c.check(ok2, "R5", "failed initial acquisition starts the follower loop", in, "the err != nil edge of the first acquisition reaches the follower transition: %v", ok2)
+					}
+				})
+			}
+			if !found {
+				c.viol("R5", "failed initial acquisition starts the follower loop", firstInstr(st), "Start does not test the result of the first acquisition attempt")
+			}
+		}
+	}
+
 	// ---- R4 (shared) ----------------------------------------------------------------
 	acquisitionRoundRule(c, "R4")
 }
 
 func loopFnHasWatch(m *Model, f *ssa.Function) bool {
 	has := false
-	for g := range m.staticReach(f, false) {
+	for _, g := range sortedFns(m.staticReach(f, false)) {
 		eachInstr(g, func(in ssa.Instruction) {
 			if _, ok := m.isKVCall(valueOf(in), "Watch"); ok {
 				has = true
@@ -266,7 +387,7 @@ func precedesLoop(call *ssa.Call) bool {
 
 // reachesAcquire: f can start or perform a Create (through static calls and go statements).
 func (m *Model) reachesAcquire(f *ssa.Function) bool {
-	for g := range m.staticReach(f, true) {
+	for _, g := range sortedFns(m.staticReach(f, true)) {
 		found := false
 		eachInstr(g, func(in ssa.Instruction) {
 			if _, ok := m.isKVCall(valueOf(in), "Create"); ok {
